@@ -89,6 +89,10 @@ def impl(case):
         G = build(case["g"], lab, case.get("ts"), case.get("max_lag"))
     except Exception as e:
         return {"build": "err:" + type(e).__name__ + ":" + str(e)[:80]}
+    if C.warm_decide(case, 4) and not case.get("ts"):
+        # query, edit the same object in place, query again (see common.warmup)
+        C.warmup(G, lambda: [impl_query(G, lab, q, case.get("ts")) for q in case["Q"][:3]],
+                 layers=("circle", "directed", "bidirected", "undirected"))
     before = C.snapshot(G)
     out = {"ans": [impl_query(G, lab, q, case.get("ts")) for q in case["Q"]]}
     out["mutated"] = before != C.snapshot(G)
